@@ -120,9 +120,7 @@ def _shards(tier):
             out.append({"nrel": 1, "kinds": [k], "end1": e})
         out.append({"nrel": 1, "kinds": [k], "end1": NAMES[0], "relations_first": True})
         out.append({"nrel": 1, "kinds": [k], "end1": NAMES[3], "relations_first": True})
-    pairs = [(2, 3), (8, 8), (13, 4), (17, 14)]
-    if tier == "thorough":
-        pairs = [(a, b) for a in REL_KINDS for b in REL_KINDS if a <= b]
+    pairs = [(a, b) for a in REL_KINDS for b in REL_KINDS if a <= b]
     for a, b in pairs:
         for e in (NAMES[0], NAMES[1], NAMES[3]):
             out.append({"nrel": 2, "kinds": [a, b], "end1": e})
@@ -136,11 +134,11 @@ OBLIGATIONS = [
                desc="prov_to_graph: nodes = element records of unified() + one inferred node per undeclared endpoint; one edge per two-ended relation, first -> second argument, carrying "
                     "the relation; graph_to_prov(g) = unified elements + those relations (strict multiset). Declared/undeclared endpoints, self loops, parallel relations, one-ended "
                     "relations, repeated identifiers, two element kinds under one identifier",
-               bounds={"quick": "3-5 elements, 0-2 relations: each of the 15 relation kinds alone and 4 kind pairs; endpoints from 5 names (2 undeclared), every combination",
-                       "thorough": "all 120 unordered pairs of relation kinds"},
+               bounds="3-5 elements, 0-2 relations: each of the 15 relation kinds alone and all 120 unordered kind pairs; endpoints from 5 names (2 undeclared), every combination; "
+                      "relations before / after the element declarations; two relations under one identifier",
                assumptions=["influence relations with an undeclared endpoint are skipped (documented by the converter)", "bundle-free documents",
                             "names are concrete (chosen by the solver from a catalogue): networkx hashes its nodes"],
                functions=["prov.graph.prov_to_graph/graph_to_prov/INFERRED_ELEMENT_CLASS", "prov.model.ProvDocument.unified", "prov.model.ProvRecord.__hash__/__eq__"],
-               shims=["networkx is real code in both stages; names are pinned before it hashes them"], best_verdict="PATH_COMPLETE",
+               shims=["networkx is real code in both stages; names are pinned before it hashes them"], best_verdict="PATH_COMPLETE", traced=False,
                budget_s=(200, 900), per_path_s=(30, 60)),
 ]
